@@ -42,7 +42,7 @@ func (e *c01Env) counts() (held, assigned int) {
 	for _, p := range e.m.pods {
 		if p.inMgr {
 			held++
-			if p.asg {
+			if p.asg() {
 				assigned++
 			}
 		}
@@ -60,7 +60,23 @@ func TestVerifC01Seq(t *testing.T) {
 			m := e.m
 			var agg map[string]*c01Agg // model figures before the current operation
 			rules := &c01QuotaRules{
-				mayBecomeParent: func(n string) bool { return m.podsIn(n) == 0 },
+				mayBecomeParent: func(n string) bool {
+					for _, p := range m.pods {
+						if p.parked && p.label == n {
+							return false // a pod is on its way into this group
+						}
+					}
+					return m.podsIn(n) == 0
+				},
+				parkedLabels: func() []string {
+					var out []string
+					for _, p := range m.pods {
+						if p.parked && m.groups[p.label] == nil {
+							out = append(out, p.label)
+						}
+					}
+					return out
+				},
 				mayDelete:       func(n string) bool { return true },
 				onDelete: func(n string) {
 					for _, p := range m.pods {
@@ -85,9 +101,15 @@ func TestVerifC01Seq(t *testing.T) {
 				kind := ""
 				switch r.Weighted(75, 20, 5) {
 				case 0:
-					ctl := &c01PodCtl{dests: append(m.leaves(), extension.DefaultQuotaName, extension.SystemQuotaName)}
+					ctl := &c01PodCtl{dests: append(m.leaves(), extension.DefaultQuotaName, extension.SystemQuotaName),
+						lateNames: append([]string{fmt.Sprintf("q%d", e.nextName)}, e.deleted...),
+						exists:    func(n string) bool { return m.groups[n] != nil }}
 					kind = e.podOp(r, kit.Pick(r, m.pods), ctl)
 					e.staleCtx(ctx, ctl.staleMigrate)
+					if ctl.lateEvent != nil {
+						e.lateResolve(ctl.lateEvent)
+						e.heal(ctx.where)
+					}
 					if ctl.reserved && stage == 0 {
 						stage = 1
 					}
@@ -349,6 +371,7 @@ func (e *c01Env) concRound(r *kit.Rand, round int) {
 	}
 	sort.Strings(qkinds)
 	c.Count("rounds", 1)
+	c.Seen("interleaving", ilv)
 	c01IlvMu.Lock()
 	if !c01IlvSeen[ilv] {
 		c01IlvSeen[ilv] = true
